@@ -464,3 +464,26 @@ Definition bstep (bsz : nat) (E : list N -> list N) (iv : list N) (s : bstate) (
            | None => None
            end
   end.
+
+(* ---------- the exported constructors called directly (NewAESCFB, NewTripleDES, NewSM4,
+   NewTwofish, NewXTEA, NewSalsa20, NewNoneCrypt): the key is used whole; a key length the
+   cipher's NewCipher refuses makes the constructor log.Panicf (None); NewSalsa20 copies
+   into [32]byte / [8]byte arrays (truncates or zero-pads, never refuses) ---------- *)
+Definition ctor_aes : list N := [97; 101; 115]%N.                          (* "aes" *)
+Definition fitn (n : nat) (l : list N) : list N := firstn n (l ++ repeat 0%N n).
+Definition len_in (n : nat) (l : list nat) : bool := existsb (Nat.eqb n) l.
+
+Definition new_direct (ctor key iv : list N) : option inst :=
+  let blockinst c := Some (IBlock c key iv (mkcr (repeat 0%N (cid_bs c)) (repeat 0%N (2 * cid_bs c)))) in
+  if bytes_eqb ctor ctor_aes then (if len_in (length key) [16; 24; 32] then blockinst AES else None)
+  else if bytes_eqb ctor name_3des then (if len_in (length key) [24] then blockinst TDES else None)
+  else if bytes_eqb ctor name_sm4 then (if len_in (length key) [16] then blockinst SM4 else None)
+  else if bytes_eqb ctor name_twofish then (if len_in (length key) [16; 24; 32] then blockinst TWOFISH else None)
+  else if bytes_eqb ctor name_xtea then (if len_in (length key) [16] then blockinst XTEA else None)
+  else if bytes_eqb ctor name_salsa20 then Some (IStream (fitn 32 key) (fitn 8 iv))
+  else if bytes_eqb ctor name_none then Some INone
+  else None.
+
+(* the accessors Key() and IV() *)
+Definition acc_key (i : inst) : list N := match i with IBlock _ k _ _ => k | IStream k _ => k | INone => [] end.
+Definition acc_iv (i : inst) : list N := match i with IBlock _ _ iv _ => iv | IStream _ n => n | INone => [] end.
